@@ -211,6 +211,13 @@ def _build(d):
         # read every depth once in the host tree (what any earlier traversal / print would do)
         _ = [n.depth for n in nodes], hosts[0].max_depth
         _ = list(bigtree.preorder_iter(hosts[0], max_depth=prep["up"] + 1))
+        # ... and run every iterator once over the whole host tree, with and without a depth bound (whatever they
+        # remember about the nodes - depth memos, cached child tuples - is from BEFORE the structural edit below)
+        big = prep["up"] + len(nodes) + 1
+        for fn in (bigtree.preorder_iter, bigtree.postorder_iter, bigtree.levelorder_iter, bigtree.levelordergroup_iter,
+                   bigtree.zigzag_iter, bigtree.zigzaggroup_iter) + ((bigtree.inorder_iter,) if d["binary"] else ()):
+            for md in (0, big, prep["up"] + 2):
+                _ = list(fn(hosts[0], max_depth=md))
         mode = prep["mode"]
         if mode == "del":
             del hosts[-1].children
